@@ -4158,6 +4158,10 @@ Case_BaseLdurStur:
 
         uint32_t element_type = uint32_t(o0.as<Vec>().element_type());
         uint32_t dst_index = o0.as<Vec>().element_index();
+
+        if (element_type < uint32_t(VecElementType::kB) || element_type > uint32_t(VecElementType::kD))
+          goto InvalidInstruction;
+
         uint32_t lsb_index = element_type - 1u;
 
         uint32_t imm5 = ((dst_index << 1) | 1u) << lsb_index;
